@@ -59,6 +59,34 @@ class Injected(OSError):
     """Injected I/O failure."""
 
 
+# (round 8) the failure an I/O step reports is an OSError of SOME errno; the common ones have their own Python classes, and a
+# handler that treats one of them specially (FileNotFoundError, FileExistsError, PermissionError, InterruptedError) must still
+# report the failure.  A fault is ["raise", step, partial bytes(, errno name)].
+class InjectedNoEnt(Injected, FileNotFoundError):
+    pass
+
+
+class InjectedExists(Injected, FileExistsError):
+    pass
+
+
+class InjectedPerm(Injected, PermissionError):
+    pass
+
+
+class InjectedIntr(Injected, InterruptedError):
+    pass
+
+
+ERRNO_KINDS = {"EIO": (Injected, 5), "ENOSPC": (Injected, 28), "ENOENT": (InjectedNoEnt, 2), "EEXIST": (InjectedExists, 17),
+               "EACCES": (InjectedPerm, 13), "EINTR": (InjectedIntr, 4)}
+
+
+def injected(f, default: str, what: str) -> OSError:
+    cls, no = ERRNO_KINDS[f[3] if f is not None and len(f) > 3 else default]
+    return cls(no, what)
+
+
 def _sdk():
     from basyx.aas import model
     from basyx.aas.backend import local_file
@@ -139,7 +167,7 @@ class Tracer:
                 raise Crash()
             if ev[0] == "write":
                 return False, f[2]
-            raise Injected(5, "injected fault at step %d" % k)
+            raise injected(f, "EIO", "injected fault at step %d" % k)
         return True, -1
 
     def fname(self, path: str) -> Any:
@@ -191,7 +219,7 @@ class Tracer:
                     return self.f.write(data)
                 if part >= 0:
                     self.f.write(data[:part])
-                    raise Injected(28, "injected fault in write")
+                    raise injected(tr.fault, "ENOSPC", "injected fault in write")
                 return len(data)
 
             def close(self):
@@ -497,6 +525,7 @@ def faults_for(events: List[Any], total: int, tier: str, rng: random.Random) -> 
             out.append(["crash", k, 0])
             continue
         out.append(["raise", k, 0])
+        out += [["raise", k, 0, e] for e in ("ENOENT", "EEXIST", "EACCES", "EINTR")]
         if ev[0] == "write":
             parts = {1, ev[1] // 2, max(ev[1] - 1, 0)}
             out += [["raise", k, p] for p in sorted(parts) if 0 < p < ev[1]]
@@ -530,7 +559,7 @@ def fault_label(events, f) -> str:
         return "none"
     k = f[1]
     step = events[k][0] if k < len(events) else "end"
-    return f"{f[0]}@{step}"
+    return f"{f[0]}@{step}" + (":" + f[3] if len(f) > 3 else "")
 
 
 # ------------------------------------------------------------------------------------------------ correspondence
@@ -567,7 +596,7 @@ def correspond(ctx: C.Ctx, cov: C.Coverage) -> List[C.Disagreement]:
             for f in capped(faults_for(events, sc.total(), ctx.tier, rng), rng, ctx.budget(300, 20000)):
                 r = sc.run(f)
                 ids, ok, n = sc.listing()
-                lines.append(["write", "fixed", sc.kind, TID, payload, f or ["none"], sc.model_fs()])
+                lines.append(["write", "fixed", sc.kind, TID, payload, (f[:3] if f else ["none"]), sc.model_fs()])
                 impl_out.append(("write", [sc.fs_view(), r["cached"] if sc.kind == "add" else False,
                                            r["bound"] if sc.kind == "add" else False, r["raised"], ids, ok, n]))
                 cases.append({"scenario": sc.describe(), "fault": f})
